@@ -19,6 +19,9 @@ func init() {
 		Assumptions: []string{"fmutils.Filter(msg, paths) keeps exactly the listed paths of msg; proto.Clone is a deep copy"},
 		Run:         runC06,
 		Controls: []Control{
+			{Name: "emptiness-tested-on-the-raw-mask", File: "pkg/masks/get.go", Old: "\tclone := proto.Clone(msg)\n\tpaths := filterPaths(msg, r.fields.GetPaths())\n\tif len(paths) == 0 {", New: "\tclone := proto.Clone(msg)\n\tpaths := filterPaths(msg, r.fields.GetPaths())\n\tif len(r.fields.GetPaths()) == 0 {", Expect: "R06.13"},
+			{Name: "walker-descends-into-the-containing-message", File: "pkg/masks/get.go", Old: "\t\tmd = fd.Message()\n", New: "\t\tmd = fd.ContainingMessage()\n", Expect: "R06.14"},
+			{Name: "revert-F69-empty-segment-handed-back", File: "pkg/masks/get.go", Old: "\t\tif name == \"\" {\n", New: "\t\tif false {\n", Expect: "R06.14"},
 			{Name: "pullid-drops-its-options", File: "pkg/resource/collection.go", Old: "\tchanges := c.Pull(ctx, opts...)\n", New: "\tchanges := c.Pull(ctx)\n", Expect: "R06.9"},
 			{Name: "sanitiser-cuts-at-every-list", File: "pkg/masks/get.go", Old: "\t\tif fd.IsMap() || fd.Message() == nil {\n", New: "\t\tif fd.IsList() || fd.IsMap() || fd.Message() == nil {\n", Expect: "paths through repeated messages"},
 			{Name: "inventory-mask-rebuilt-from-paths", File: "pkg/trait/vendingpb/model_server.go", Old: "\tfilter := masks.NewResponseFilter(masks.WithFieldMask(request.ReadMask))\n\tpage := sortedItems[nextIndex:upperBound]\n\tresult.Inventory", New: "\tfilter := masks.NewResponseFilter(masks.WithFieldMaskPaths(request.GetReadMask().GetPaths()...))\n\tpage := sortedItems[nextIndex:upperBound]\n\tresult.Inventory", Expect: "R06.10"},
@@ -59,6 +62,10 @@ func runC06(c *an.Ctx) {
 	c.Min("R06.8", 3)
 	r1418(c, "R06.12") // a mask written for an aggregate is applied to the aggregate, not to the items it is assembled from (shared with R14.18)
 	c.Min("R06.12", 2)
+	r0613(c, "R06.13")
+	c.Min("R06.13", 1)
+	r0614(c, "R06.14")
+	c.Min("R06.14", 2)
 	r0610(c, "R06.10")
 	c.Min("R06.10", 3)
 	// a read never alters what is stored: E2 (shared with R07.1) over the read side - Get/List/Pull functions of the
@@ -1081,4 +1088,123 @@ func isReadSide(fn *ssa.Function) bool {
 	}
 	n := f.Name()
 	return strings.HasPrefix(n, "Get") || strings.HasPrefix(n, "List") || strings.HasPrefix(n, "Pull") || strings.HasPrefix(n, "pull") || strings.HasPrefix(n, "list")
+}
+
+// r0613: the list that decides "this mask selects nothing" is the list fmutils is given. FilterClone / Filter
+// sanitise the mask's paths first (filterPaths drops what cannot be a path); fmutils.Filter with NO paths keeps
+// every field, so the empty test has to be made on the sanitised list - made on the raw mask, a mask whose paths
+// are all dropped ([""], ["."]) reaches fmutils empty and the whole stored message is returned.
+func r0613(c *an.Ctx, rule string) {
+	n := 0
+	for _, fn := range c.Prog.FuncsIn("pkg/masks") {
+		if c.Prog.IsGenerated(fn.Pos()) || strings.HasSuffix(c.Prog.RelFile(fn.Pos()), "_test.go") || !strings.HasSuffix(c.Prog.RelFile(fn.Pos()), "get.go") {
+			continue
+		}
+		for _, ci := range an.CallsIn(fn, func(s string) bool { return strings.HasSuffix(s, "fmutils.Filter") }) {
+			call, ok := ci.(*ssa.Call)
+			if !ok || len(call.Call.Args) != 2 {
+				continue
+			}
+			n++
+			paths := call.Call.Args[1]
+			tested := false
+			for _, e := range an.GuardingEdges(call) {
+				for _, s := range an.Sources(e.If.Cond) {
+					bo, isBo := s.(*ssa.BinOp)
+					if !isBo {
+						continue
+					}
+					for _, side := range []ssa.Value{bo.X, bo.Y} {
+						ln, isLen := side.(*ssa.Call)
+						if !isLen || an.CalleeName(ln) != "builtin len" {
+							continue
+						}
+						for _, a := range an.Sources(ln.Call.Args[0]) {
+							for _, b := range an.Sources(paths) {
+								if a == b {
+									tested = true
+								}
+							}
+						}
+					}
+				}
+			}
+			c.SawFunc(an.FuncName(fn))
+			c.Check(tested, rule, an.FuncName(fn)+"|the list tested for emptiness is the list handed to fmutils", call.Pos(), "len(paths) of the very list passed to fmutils.Filter guards the call",
+				"fmutils.Filter is reached without a test that the list it is given is non-empty (the test is made on another list): with every path dropped by the sanitiser fmutils keeps all fields, so a mask that selects nothing returns the whole message")
+		}
+	}
+	c.Count("fmutils_filter_calls_on_the_read_side", n)
+}
+
+// r0614: the path walkers descend into the field's OWN message type (fd.Message()) and give up on an empty segment.
+// Stepping to fd.ContainingMessage() keeps looking names up in the parent, so below the first level nothing is cut
+// and a path through a nested repeated scalar or map reaches fmutils, which panics. An empty segment ("a..b") is
+// skipped by fmutils, which then carries on below a with b, past every check made here: the walker must not hand
+// such a path back (it selects nothing).
+func r0614(c *an.Ctx, rule string) {
+	fn := c.Prog.Func("pkg/masks", "", "traversablePrefix")
+	if fn == nil {
+		c.Unk(rule, "pkg/masks.traversablePrefix|descends by the field's own type", 0, "the path sanitiser's walker was not found")
+		return
+	}
+	name := an.FuncName(fn)
+	c.SawFunc(name)
+	// (a) every loop-carried message descriptor comes from FieldDescriptor.Message()
+	okDescend, nPhi := true, 0
+	an.Instrs(fn, func(in ssa.Instruction) {
+		phi, ok := in.(*ssa.Phi)
+		if !ok || !strings.HasSuffix(phi.Type().String(), "protoreflect.MessageDescriptor") {
+			return
+		}
+		nPhi++
+		for _, e := range phi.Edges {
+			if e == ssa.Value(fn.Params[0]) {
+				continue
+			}
+			good := false
+			for _, s := range an.Sources(e) {
+				if s == ssa.Value(fn.Params[0]) || s == ssa.Value(phi) {
+					good = true
+				}
+				if call, isCall := s.(*ssa.Call); isCall && call.Call.IsInvoke() && call.Call.Method.Name() == "Message" {
+					good = true
+				}
+			}
+			if !good {
+				okDescend = false
+			}
+		}
+	})
+	c.Check(okDescend && nPhi > 0, rule, name+"|descends by the field's own type", fn.Pos(), "md = fd.Message()",
+		"the walker's next descriptor is not the field's own message type: names below the first level are looked up in the wrong message, nothing is cut there, and a path through a nested repeated scalar or map makes the read panic in fmutils")
+	// (b) an empty segment: a return of something other than the untouched path is guarded by name == ""
+	okEmpty := false
+	for _, r := range an.Returns(fn) {
+		for _, e := range an.GuardingEdges(r) {
+			bo, isBo := e.If.Cond.(*ssa.BinOp)
+			if !isBo {
+				continue
+			}
+			isEmptyStr := func(v ssa.Value) bool {
+				k, isC := v.(*ssa.Const)
+				return isC && k.Value != nil && k.Value.ExactString() == `""`
+			}
+			isZero := func(v ssa.Value) bool { k, isC := an.ConstInt(v); return isC && k == 0 }
+			emptyTest := (bo.Op == token.EQL && e.Branch || bo.Op == token.NEQ && !e.Branch) && (isEmptyStr(bo.X) || isEmptyStr(bo.Y) || isZero(bo.X) || isZero(bo.Y))
+			if !emptyTest {
+				continue
+			}
+			for _, v := range an.ValuesAt(r.Results[0]) {
+				if isEmptyStr(v) {
+					okEmpty = true
+				}
+				if _, isSl := v.(*ssa.Slice); isSl {
+					okEmpty = true
+				}
+			}
+		}
+	}
+	c.Check(okEmpty, rule, name+"|an empty segment ends the walk", fn.Pos(), "name == \"\" returns without the rest of the path",
+		"a path with an empty inner segment (\"a..b.c\") is handed back whole: fmutils skips the empty segment and continues below a with b.c, past the sanitiser's checks - a path through a repeated scalar or map there makes the read panic")
 }
